@@ -43,18 +43,21 @@ theorem base_requests_are_modelled :
        ("__instancecheck__", "syncreq", "self", "HANDLE_INSTANCECHECK", ["$1.____id_pack__"])] := by
   decide
 
-/-- the four shapes of `_make_method`, and the request of `helpers.buffiter` -/
+/-- the four shapes of `_make_method`, and the request of `helpers.buffiter`.  In a signature `self` stands for a leading
+NAMED parameter that receives the proxy (whatever it is called): the two shapes that forward `**kwargs` have none, so no
+keyword name is kept from the target -/
 theorem made_methods_are_modelled :
     Gen.Netref.makeMethodShapes =
       [("__call__", "(*,**)", "syncreq", "self", "HANDLE_CALL", ["$*", "tuple(items($**))"]),
-       ("<slicers>", "($1,$2,*)", "syncreq", "self", "HANDLE_OLDSLICING", ["slicers[$name]", "$name", "$1", "$2", "$*"]),
-       ("__array__", "()", "syncreq", "self", "HANDLE_PICKLE", ["-1"]),
+       ("<slicers>", "(self,$1,$2,*)", "syncreq", "self", "HANDLE_OLDSLICING", ["slicers[$name]", "$name", "$1", "$2", "$*"]),
+       ("__array__", "(self)", "syncreq", "self", "HANDLE_PICKLE", ["-1"]),
        ("<other>", "(*,**)", "syncreq", "self", "HANDLE_CALLATTR", ["$name", "$*", "tuple(items($**))"])]
     ∧ Gen.Netref.buffiterRequest = ("syncreq", "iter($1)", "HANDLE_BUFFITER", ["$2"]) := by
   exact ⟨rfl, rfl⟩
 
-/-- a made `__call__` / method forwards EVERY keyword argument: none of the candidate names (`self`, `_self`, `args`,
-`kwargs`, `name`, `cls`, ...) is taken by the made function for itself (observed by calling the real made methods
+/-- a made `__call__` / method forwards EVERY keyword argument: no candidate name - every parameter name of the made
+functions' own signatures (a keyword is captured exactly when it names a parameter), plus `self`, `_self`, `args`,
+`kwargs`, `name`, `cls`, ... - is taken by the made function for itself (observed by calling the real made methods
 with each of them) — the model's `wireOf (.call args kwargs)` / `(.method n args kwargs)` forwards all of `kwargs` -/
 theorem made_methods_reserve_no_keyword : Gen.Netref.reservedKeywords = [] := by decide
 
